@@ -66,7 +66,7 @@ CHECKS = {
     technique="TLA+ run-equality / no-duplicate contract (Trace_Runs) + TLC-simulated programs linted repeatedly in-process and in separate processes + TLC trace validation"),
  "C12": dict(
     category="model_checking",
-    text="TLC enumerates every history of extra pass runs over {value analysis, ecall termination, liveness} of length 1..3 (Gen_Hist, 39 histories, exhaustive). For each program (Gen_Values / Gen_Flow simulation, corpus incl. nested loops, irreducible flow, recursion, many call sites) and each history the harness analyses a clone of the same parsed program, applies the history with the real passes and records the observables after every step plus the sweep counters from the rva_verif hooks. Trace_Stable is a stateful trace specification: `analysed` must reproduce the first analysis of the program, `extra(pass)` is accepted only as stuttering on nodes/edges/values/live sets/u_def/functions/lints, and every pass run must stay within 4N+3 sweeps (the limit PassLoop.tla establishes for the iteration scheme: 4N-1 is reached by chains of dead loops). The as-built layer is part of the check: PassLoop.tla (one action per critical section of AvailableValuePass::run - Visit, SweepEnd, Cut, Rerun) is model-checked exhaustively over all graphs with N<=3 (N<=4 thorough) for SweepBound, FixedPoint, Stable, AllVisited and termination, its two pre-repair variants must be refuted (negative controls), and step traces recorded from the real value and liveness pass loops (hooks pass_begin/visit/sweep_end) are validated by Trace_PassLoop against the same operators (PassOps.tla): a run that ends off the fixed point of the meet/join equation or a re-run that changes facts is a violation, any other departure is reported as SPEC-DRIFT. Hangs (no result within the watchdog) are violations here too; twin-file programs, Gen_Shared programs and chains of dependent exit ecalls are part of the population.",
+    text="TLC enumerates every history of extra pass runs over {value analysis, ecall termination, liveness} of length 1..3 (Gen_Hist, 39 histories, exhaustive). For each program (Gen_Values / Gen_Flow simulation, corpus incl. nested loops, irreducible flow, recursion, many call sites) and each history the harness analyses a clone of the same parsed program, applies the history with the real passes and records the observables after every step plus the sweep counters from the rva_verif hooks. Trace_Stable is a stateful trace specification: `analysed` must reproduce the first analysis of the program, `extra(pass)` is accepted only as stuttering on nodes/edges/values/live sets/u_def/functions/lints, and every pass run must stay within 4N+3 sweeps (the limit PassLoop.tla establishes for the iteration scheme: 4N-1 is reached by chains of dead loops). The as-built layer is part of the check: PassLoop.tla (one action per critical section of AvailableValuePass::run - Visit, SweepEnd, Cut, Rerun) is model-checked exhaustively over all graphs with N<=3 (N<=4 thorough) for SweepBound, FixedPoint, Stable, AllVisited and termination, its two pre-repair variants must be refuted (negative controls), and step traces recorded from the real value and liveness pass loops (hooks pass_begin/visit/sweep_end) are validated by Trace_PassLoop against the same operators (PassOps.tla): a run that ends off the fixed point of the meet/join equation or a re-run that changes facts is a violation, any other departure is reported as SPEC-DRIFT. Pipeline.tla (EXTENDS PassLoop) models the rounds of value analysis and ecall termination in Manager::gen_full_cfg; TLC establishes over all configurations with N=3 that the finished facts are the fixed point of the finished graph and that edges stop at exits, and refutes the two fixed rounds of the pinned pipeline (negative control). Hangs (no result within the watchdog) are violations here too; twin-file programs, Gen_Shared programs and chains of dependent exit ecalls are part of the population.",
     design_ref="DESIGN.md §5 C12",
     note="Trusted: TLC, harness projection (canonical JSON per observable group), rva_verif sweep hooks. Lint lists are compared order-insensitively (order is C10's).",
     technique="TLA+ stateful trace specification (Trace_Stable: extra passes = stuttering) + TLC-enumerated pass histories replayed with the real passes + sweep-counter hooks"),
